@@ -69,10 +69,16 @@ def build_jobs(tier, rep):
     # stratum: indented code inside a quote / list (relative vs absolute indentation), every single-step form
     import re
     codeish = [d for d in l1 if re.search(r"(^|\n)(>|[-*+]|\d+[.)]) {5,}\S", d)]
-    for k, d in enumerate(gen.sample(codeish, 2500 if q else 40000, C.SEED + 7, keep_short=600)):
+    for k, d in enumerate(gen.sample(codeish, 1200 if q else 40000, C.SEED + 7, keep_short=600)):
         for o in singles:
             jobs.append((d, o, CFG))
-    rep.cov["bounds"] = {"code_in_container_seeds": len(codeish), "L1_seeds_enumerated": len(l1), "seeds_used": len(seeds), "op_sequences": len(ops),
+    # stratum: documents that open an HTML block of the kinds that run across blank lines (comment, processing
+    # instruction, CDATA, <pre> ...): inside a list item the block must end exactly where it ends at top level
+    htmlish = [d for d in l1 if re.match(r" {0,3}([-*+] |\d+[.)] |> )?<(!--|\?|!\[CDATA\[|pre|!A|script|style|textarea)", d, re.I)]
+    for k, d in enumerate(gen.sample(htmlish, 900 if q else 40000, C.SEED + 8, keep_short=500)):
+        for o in singles:
+            jobs.append((d, o, CFG))
+    rep.cov["bounds"] = {"html_block_seeds": len(htmlish), "code_in_container_seeds": len(codeish), "L1_seeds_enumerated": len(l1), "seeds_used": len(seeds), "op_sequences": len(ops),
                          "seed_x_sequence_cases": len(jobs)}
     rep.cov["exhaustive"] = False
     return jobs
